@@ -56,27 +56,33 @@ type c03Variant struct {
 	name  string
 	lines []string
 	cfg   judge.Cfg
+	// outInTy: the code is emitted into the package that declares the universe's types (its unexported fields are
+	// accessible there); the lines are completed per universe
+	outInTy bool
 }
 
 func c03Variants(e *core.Env) []c03Variant {
 	all := []c03Variant{
-		{"none", nil, judge.Cfg{}},
-		{"unknown", []string{"enum:unknown @ignore"}, judge.Cfg{EnumUnknown: "@ignore"}},
-		{"skipCopy", []string{"skipCopySameType", "enum:unknown @ignore"}, judge.Cfg{SkipCopy: true, EnumUnknown: "@ignore"}},
-		{"useZero", []string{"useZeroValueOnPointerInconsistency", "enum:unknown @ignore"}, judge.Cfg{UseZero: true, EnumUnknown: "@ignore"}},
-		{"ignoreMissing", []string{"ignoreMissing"}, judge.Cfg{IgnoreMissing: true}},
-		{"ignoreUnexported", []string{"ignoreUnexported yes"}, judge.Cfg{IgnoreUnexported: true}},
-		{"matchIgnoreCase", []string{"matchIgnoreCase"}, judge.Cfg{MatchIgnoreCase: true}},
-		{"enumNo", []string{"enum no"}, judge.Cfg{EnumOff: true}},
+		{"none", nil, judge.Cfg{}, false},
+		{"unknown", []string{"enum:unknown @ignore"}, judge.Cfg{EnumUnknown: "@ignore"}, false},
+		{"skipCopy", []string{"skipCopySameType", "enum:unknown @ignore"}, judge.Cfg{SkipCopy: true, EnumUnknown: "@ignore"}, false},
+		{"useZero", []string{"useZeroValueOnPointerInconsistency", "enum:unknown @ignore"}, judge.Cfg{UseZero: true, EnumUnknown: "@ignore"}, false},
+		{"ignoreMissing", []string{"ignoreMissing"}, judge.Cfg{IgnoreMissing: true}, false},
+		{"ignoreUnexported", []string{"ignoreUnexported yes"}, judge.Cfg{IgnoreUnexported: true}, false},
+		{"matchIgnoreCase", []string{"matchIgnoreCase"}, judge.Cfg{MatchIgnoreCase: true}, false},
+		{"enumNo", []string{"enum no"}, judge.Cfg{EnumOff: true}, false},
 		{"all", []string{"skipCopySameType", "useZeroValueOnPointerInconsistency", "ignoreMissing", "ignoreUnexported", "matchIgnoreCase", "enum:unknown Red"},
-			judge.Cfg{SkipCopy: true, UseZero: true, IgnoreMissing: true, IgnoreUnexported: true, MatchIgnoreCase: true, EnumUnknown: "Red"}},
+			judge.Cfg{SkipCopy: true, UseZero: true, IgnoreMissing: true, IgnoreUnexported: true, MatchIgnoreCase: true, EnumUnknown: "Red"}, false},
 	}
+	// after the others, in the same process and over the same loaded packages: whether a field is accessible is a
+	// question about (field, output package), not about the field alone
+	outTy := c03Variant{name: "outInTy", outInTy: true}
 	if e.Tier == "thorough" {
-		return all
+		return append(all, outTy)
 	}
 	// quick: the unconfigured variant plus one seed-selected other
 	k := 1 + int(e.Seed)%(len(all)-1)
-	return []c03Variant{all[0], all[k], all[len(all)-1]}
+	return []c03Variant{all[0], all[k], all[len(all)-1], outTy}
 }
 
 type c03Disagree struct {
@@ -89,7 +95,7 @@ type c03Disagree struct {
 // C03: generation succeeds iff a documented rule covers every position.
 func C03(e *core.Env) int {
 	rep := core.NewReport(e, "exploration")
-	rep.Rule = "universe D1 = 22 leaf types (basics, named basics, enums with equal/different member names in two packages, same-shape/extra-field/kind-mismatch/unexported-field structs, any, named interface, func, chan) closed under one constructor application {*, [], [2], map[string]., map[.]string, struct{F .}, named}; ALL ordered pairs are generated in-process (comments.ParseDocs, config.Parse, generator.Generate: one converter per pair) under the settings variants and compared with the independent convertibility judgement J (internal/judge/j.go); thorough adds D2 (6 leaves, two applications) and random deep struct pairs; a sample of pairs is re-run through the real CLI and must agree with the in-process outcome; non-trivial = J descended at least one level into the pair; distinct = (pair, variant)"
+	rep.Rule = "universe D1 = 32 leaf types (basics, named basics, named complex / bool types with constants, enums with equal/different member names in two packages, same-shape/extra-field/kind-mismatch/unexported-field structs, any, named interface, func, chan) closed under one constructor application {*, [], [2], map[string]., map[.]string, struct{F .}, named}; ALL ordered pairs are generated in-process (comments.ParseDocs, config.Parse, generator.Generate: one converter per pair) under the settings variants (one of them emits into the types' own package) and compared with the independent convertibility judgement J (internal/judge/j.go); thorough adds D2 (6 leaves, two applications) and random deep struct pairs; a sample of pairs is re-run through the real CLI and must agree with the in-process outcome; six fixed programs with two converters emitted into different packages over structs with unexported fields (each judged against its own output package); non-trivial = J descended at least one level into the pair; distinct = (pair, variant)"
 	rep.Assumptions = []string{"J encodes docs/explanation/generation.md and the property text", "settings are given at CLI level so that generated sub-methods see the same values", "in-process API equals the CLI (validated on a sample every run)"}
 	rep.Floor = tierN(e, 1000, 20000)
 	helper, err := e.BuildHelper("inproc")
@@ -122,7 +128,11 @@ func C03(e *core.Env) int {
 		}
 		var vs []inprocVariant
 		for _, v := range un.vars {
-			vs = append(vs, inprocVariant{v.name, v.lines})
+			lines := v.lines
+			if v.outInTy {
+				lines = []string{"output:file @cwd/ty/zz_generated.go", "output:package " + un.u.Root + "/ty"}
+			}
+			vs = append(vs, inprocVariant{v.name, lines})
 		}
 		n := len(un.u.Types)
 		results := make([]map[string]inprocOut, len(un.u.Shards)) // shard -> "variant|conv" -> out
@@ -153,6 +163,9 @@ func C03(e *core.Env) int {
 					rep.Evaluations++
 					cfg := v.cfg
 					cfg.OutPkg = un.u.Out[sh]
+					if v.outInTy {
+						cfg.OutPkg = un.u.Ty
+					}
 					cfg.SigPkg = un.u.Shards[sh]
 					want := judge.Convertible(un.u.Types[i], un.u.Types[j], cfg)
 					label := un.u.Labels[i] + " -> " + un.u.Labels[j]
@@ -219,6 +232,7 @@ func C03(e *core.Env) int {
 	c03Random(e, rep)
 	// CLI validation of a sample
 	c03ValidateCLI(e, rep, unis[0].u, cliSamples, variants[0])
+	c03TwoOutputs(e, rep)
 	return rep.Finish()
 }
 
@@ -241,6 +255,63 @@ func classCompatible(cl string, want map[string]bool) bool {
 		return true
 	}
 	return false
+}
+
+// c03TwoOutputs: one run whose converters are emitted into DIFFERENT packages and convert the same structs with unexported
+// fields: every converter is judged against its own output package (accessible in the structs' package, not elsewhere),
+// in both orders and with ignoreUnexported / an explicit ignore on the foreign one (real CLI, fixed programs).
+func c03TwoOutputs(e *core.Env, rep *core.Report) {
+	bin, err := e.BuildCLI("plain")
+	if err != nil {
+		rep.Inconclusive = append(rep.Inconclusive, err.Error())
+		return
+	}
+	root := filepath.Join(e.Scratch, "two-outputs")
+	os.MkdirAll(root, 0o755)
+	os.WriteFile(filepath.Join(root, "go.mod"), []byte("module vcase\n\ngo 1.22\n"), 0o644)
+	types := "type In struct {\n\tName   string\n\tsecret string\n}\ntype Out struct {\n\tName   string\n\tsecret string\n}\n"
+	type prog struct {
+		name          string
+		local, remote string // interface names: the alphabetical order is the processing order
+		remoteLines   string
+		wantOK        bool
+	}
+	var progs []prog
+	for _, order := range [][2]string{{"ALocal", "ZRemote"}, {"ZLocal", "ARemote"}} {
+		progs = append(progs,
+			prog{"plain_" + order[0], order[0], order[1], "", false},
+			prog{"ignoreunexported_" + order[0], order[0], order[1], "// goverter:ignoreUnexported\n", true},
+			prog{"ignore_" + order[0], order[0], order[1], "", true})
+	}
+	for _, p := range progs {
+		dir := filepath.Join(root, p.name)
+		mline := ""
+		if strings.HasPrefix(p.name, "ignore_") {
+			mline = "\t// goverter:ignore secret\n"
+		}
+		src := "package p\n\n" + types + "\n// goverter:converter\n// goverter:output:file ./local_gen.go\n// goverter:output:package vcase/" + p.name + "/p\ntype " + p.local + " interface {\n\tConvert(source In) Out\n}\n\n" +
+			"// goverter:converter\n" + p.remoteLines + "type " + p.remote + " interface {\n" + mline + "\tConvert(source In) Out\n}\n"
+		os.MkdirAll(filepath.Join(dir, "p"), 0o755)
+		os.WriteFile(filepath.Join(dir, "p", "input.go"), []byte(src), 0o644)
+		res := core.RunCmd(bin, []string{"gen", "./p"}, core.RunOpts{Dir: dir, Env: e.GoEnv(), Timeout: 60 * time.Second})
+		rep.Evaluations++
+		rep.NonTrivial("twooutputs|" + p.name)
+		rep.Count("two_output_package_programs", 1)
+		det := fmt.Sprintf("exit=%d\nstderr=%s\n--- input ---\n%s", res.Exit, head(res.Stderr, 1200), src)
+		switch {
+		case !p.wantOK && res.Exit == 0:
+			rep.Violation(&core.Viol{Kind: "accepts_unconvertible", Case: "twooutputs/" + p.name, Summary: "converter " + p.remote + " is emitted into ./generated and needs the unexported field 'secret' of package p, generation succeeded (a sibling converter emitted into p may use it) [unexported-source]", Detail: det, Dir: dir})
+		case p.wantOK && res.Exit != 0:
+			rep.Violation(&core.Viol{Kind: "rejects_convertible", Case: "twooutputs/" + p.name, Summary: "converter " + p.local + " is emitted into package p and may use its unexported fields, the sibling emitted elsewhere skips them; generation failed: " + firstLine(res.Stderr), Detail: det, Dir: dir})
+		case p.wantOK:
+			// the local one copies the field, the remote one does not mention it
+			lb, _ := os.ReadFile(filepath.Join(dir, "p", "local_gen.go"))
+			rb, _ := os.ReadFile(filepath.Join(dir, "p", "generated", "generated.go"))
+			if !strings.Contains(string(lb), ".secret = source.secret") || strings.Contains(string(rb), "secret") {
+				rep.Violation(&core.Viol{Kind: "accessibility_mixed_up", Case: "twooutputs/" + p.name, Summary: "the converter emitted into p must copy the unexported field, the one emitted into ./generated must not mention it", Detail: det + "\n--- local ---\n" + head(string(lb), 1500) + "\n--- remote ---\n" + head(string(rb), 1500), Dir: dir})
+			}
+		}
+	}
 }
 
 // c03ValidateCLI re-runs a seed-selected sample of pairs through the real CLI and compares with the in-process outcome.
